@@ -8,7 +8,7 @@ SUBSETS = [["PartialEq"], ["PartialEq", "PartialOrd"], ["PartialEq", "Eq"], ["Pa
            ["PartialOrd"], ["Ord"], ["Eq"], ["PartialOrd", "Ord"], ["PartialEq", "Eq", "PartialOrd", "Ord", "Hash"]]
 G_UNITS = {"cmp_flags": ["CompareOp::is_effects_to", "HelperAttributesForCompareOp::is_ignore", "HelperAttributesForCompareOp::is_reverse"],
            "cmp_select": ["build_partial_eq_expr", "build_partial_ord_expr", "build_ord_expr", "ItemSourceKind::self_of", "ItemSourceKind::other_of"],
-           "kinds": ["HelperAttributeKinds::is_match_cmp_attr", "HelperAttributeKinds::extend"]}
+           "kinds": ["HelperAttributeKinds::is_match_cmp_attr", "HelperAttributeKinds::extend", "HelperAttributesForCompareOp::from_attrs"]}
 
 
 def programs(ctx):
